@@ -175,11 +175,11 @@ pub fn prop_of(ins: &Instr) -> &'static str {
         | Cof { .. } | SatValid { .. } | EvalAll { .. } => "C02",
         Restrict { .. } | Quantify { .. } | ApplyQuant { .. } | SubstNew { .. } | SubstDrop { .. } | Subst { .. } => "C04",
         PickCube { .. } | PickCubeDd { .. } | PickCubeDdSet { .. } | PickUniform { .. } => "C13",
-        SatCount { .. } => "C12",
+        SatCount { .. } | NatOps { .. } => "C12",
         Dddmp { .. } => "C15",
         ZConst { .. } | ZSingleton { .. } | ZBin { .. } | ZUn { .. } | ZMakeNode { .. } => "C09",
         NConst { .. } | NVar { .. } | NBin { .. } | NIte { .. } | NRestrict { .. } => "C10",
-        TConst { .. } | TVar { .. } | TNot { .. } | TBin { .. } | TIte { .. } | TCof { .. } => "C11",
+        TConst { .. } | TVar { .. } | TNot { .. } | TNotEdgeOwned { .. } | TBin { .. } | TIte { .. } | TCof { .. } => "C11",
         Order { .. } => "C08",
         AddVars { .. } | AddNamed { .. } | AddNamedMap { .. } | SetName { .. } => "C16",
         Clone { .. } | Drop { .. } | Gc => "C05",
